@@ -89,6 +89,11 @@ pub fn run(cfg: &Cfg, seed: u64) -> (Arc<World>, crate::sim::SimStats) {
         if seed % 3 == 0 {
             w.oneshot_style.store(1, std::sync::atomic::Ordering::Relaxed);
         }
+        // a third of the scenarios: callers catch a panic of their call future and keep the dead future
+        // for a while (FutureExt::catch_unwind on a pinned future) instead of dropping it at once
+        if (seed >> 5) % 3 == 0 {
+            w.keep_panicked_call.store(30, std::sync::atomic::Ordering::Relaxed);
+        }
         // separate `layer()` calls: every service coalesces on its own
         let svcs = [layer.layer(w.probe(1)), layer.layer(w.probe(2))];
         for (i, r) in cfg.reqs.iter().enumerate() {
